@@ -272,8 +272,24 @@ class BptkServer(Flask):
         if(self._external_state_adapter == None):
             return
 
-        instance_states = self._instance_manager.get_instance_states()
-        self._external_state_adapter.save_state(instance_states)
+        # An instance is copied and written while its session lock is held: otherwise a stepping request could externalise a
+        # newer session between the copy and the write, and the write would put the older one back. An instance that is
+        # being stepped right now is left to the request that steps it (it externalises the session when it ends).
+        instance_states = []
+        for instance_uuid in list(self._instance_manager._instances.keys()):
+            try:
+                instance = self._instance_manager._instances[instance_uuid]["instance"]
+            except KeyError:
+                continue
+            if instance.try_lock():
+                try:
+                    state = self._instance_manager._get_instance_state(instance_uuid)
+                    self._external_state_adapter.save_state([state])
+                finally:
+                    instance.unlock()
+            else:
+                state = self._instance_manager._get_instance_state(instance_uuid)
+            instance_states.append(state)
 
         resp = make_response(jsonpickle.dumps(instance_states), 200)
         resp.headers['Content-Type']='application/json'
